@@ -1,6 +1,7 @@
 import GbVerif.Model.Cache
 import GbVerif.Proofs.Enum
 import GbVerif.Proofs.CartFrame
+import GbVerif.Proofs.BlockWalk
 /-!
 C03 — the translation cache is transparent, including across ROM bank switches.
 The cache model abstracts a translation to the guest bytes it was made from; transparency is then:
@@ -185,6 +186,28 @@ theorem block_bank_stable_partial (r : Interp.Regs) (s : Bus.State) (fuel : Nat)
   obtain ⟨h1, h2, h3⟩ := runCodeBlockAuxHi_spec r.ip fuel r s _ res tr h
   exact ⟨h1, fun c hc => by rw [h2 c hc], by rw [h3]⟩
 
+open GbVerif.CoreProofs GbVerif.BusProofs in
+/-- **the interpreter runs what the translator translated** (`interp_walk_is_translation_partial`): for a block at a
+translatable ROM address whose stores all go to 0x8000 and above, (1) the interpreter's `run_code_block` gives the
+result of the guarded walk, and (2) the guest bytes it decoded, instruction by instruction, are exactly the bytes
+`translate_code_block` consumes for that address under the bank mapped at entry — the same instruction boundaries and the
+same block end.  So the cached translation is a translation of what the interpreter executes at *every* program counter
+of the block, not only at its first.  Partial for the same reason as `block_bank_stable_partial`. -/
+theorem interp_walk_is_translation_partial (r : Interp.Regs) (s : Bus.State) (res : Interp.Regs × Bus.State × Nat) (bytes : List Nat)
+    (wf : BusProofs.WF s) (hrom : ∀ i, s.rom i < 256) (hd : Cpu.canDynarec r.ip = true)
+    (h : walkHi r.ip r s Interp.STATUS_NORMAL 0x4000 = .ok (res, bytes)) :
+    Cpu.runCodeBlock r s 65536 = .ok res ∧ translate s.rom (Cart.getRomBank s.cart) r.ip = ⟨bytes⟩ := by
+  constructor
+  · have := walkHi_real r.ip 0x4000 r s _ res bytes h
+    have h2 := runCodeBlockAux_fuel r.ip 0x4000 49152 r s _ res this
+    have e : (0x4000 : Nat) + 49152 = 65536 := by decide
+    rw [e] at h2
+    exact h2
+  · have hs : r.ip < 0x8000 := (canDynarec_lt hd).1
+    have := walkHi_source r.ip hs hd 0x4000 r s _ res bytes wf hrom h
+    show Block.mk _ = Block.mk _
+    rw [this]
+
 /-- a bus for the examples: MBC1, 4 banks; bank 1 holds `LD (0xC000),A ; INC A ; HALT` at 0x4000,
 bank 2 holds `LD (0x2100),A ; INC A ; HALT` at 0x4000 -/
 def exBus : Bus.State :=
@@ -197,6 +220,12 @@ open GbVerif.CoreProofs in
 /-- non-vacuity: a banked block with a store to work RAM satisfies the hypothesis (three fetches, all under bank 1) -/
 example : (runCodeBlockAuxHi 0x4000 { ip := 0x4000, af := 0x0300 } exBus Interp.STATUS_NORMAL 16).toOption.map
     (fun x => (x.1.1.ip, x.2.map Cart.getRomBank)) = some (0x4005, [1, 1, 1]) := by decide +kernel
+
+open GbVerif.CoreProofs in
+/-- non-vacuity: the bank-1 block of `exBus` — the interpreter's walk yields its five guest bytes, which are the translation's -/
+example : (walkHi 0x4000 { ip := 0x4000, af := 0x0300 } exBus Interp.STATUS_NORMAL 0x4000).toOption.map (fun x => x.2) =
+    some [0xea, 0x00, 0xc0, 0x3c, 0x76] ∧ (translate exBus.rom 1 0x4000).src = [0xea, 0x00, 0xc0, 0x3c, 0x76] := by
+  decide +kernel
 
 open GbVerif.CoreProofs in
 /-- the boundary is sharp: the same block shape in bank 2 stores to 0x2100; the guarded run refuses it, and on the real
